@@ -329,6 +329,9 @@ def oracle(w, mev, consts):
                 if res == "ok" and i["kind"] == "u":
                     if i["confirmed"] is None or not i["confirmed"][0]:
                         return f"unicast {r} (dst {i['dst']}, tag {w.tag_of.get(r)}) reported delivered without a successful confirmation for its own destination and tag"
+                if res == "timeout" and i["confirmed"] is not None:
+                    return (f"unicast {r} (dst {i['dst']}, tag {w.tag_of.get(r)}) raised a timeout although a delivery confirmation for its own destination and tag "
+                            f"({'success' if i['confirmed'][0] else 'failure'}) arrived at {i['confirmed'][1]} while it was in progress")
                 if res == "timeout":
                     if "t_accept" not in i or abs(now - (i["t_accept"] + aps_timeout)) > 1e-6:
                         return f"unicast {r} timed out at {now}, expected {aps_timeout}s after the NCP accepted it"
